@@ -475,6 +475,21 @@ vbi_bit_slicer_init(vbi_bit_slicer *slicer,
 			 + sampling_rate * 256.0 / bit_rate * .25 + 128);
 		break;
 	}
+
+	/* When the CRI is found in the last search iteration sample()
+	   still reads the sample of the last payload bit and its
+	   successor, these must lie within raw_samples. */
+	{
+		int reach;
+
+		reach = ((slicer->phase_shift
+			  + (payload + frc_bits - 1) * slicer->step) >> 8) + 1;
+
+		if (slicer->cri_bytes > raw_samples - reach)
+			slicer->cri_bytes = raw_samples - reach;
+		if (slicer->cri_bytes < 0)
+			slicer->cri_bytes = 0;
+	}
 }
 
 /**
